@@ -565,7 +565,10 @@ def match_finding(findings, pid, obligation, desc, where_text):
             continue
         if f.get("check") and f["check"] not in (desc or ""):
             continue
-        if f.get("where") and rsx.norm(f["where"]) not in rsx.norm(where_text or ""):
-            continue
+        wh = f.get("where")
+        if wh:
+            whs = wh if isinstance(wh, list) else [wh]
+            if not all(rsx.norm(w) in rsx.norm(where_text or "") for w in whs):
+                continue
         return f
     return None
